@@ -130,7 +130,7 @@ func c10Check(sc *syncCase) core.Result {
 				return res
 			}
 		case drive.DaemonPush, drive.LibPush:
-			tap, err := peer.ParsePush(sr.Out.C2S, lo, sc.Arr == drive.DaemonPush, true, false)
+			tap, err := peer.ParsePush(sr.Out.C2S, lo, sc.Arr == drive.DaemonPush, true, effective(sc.Args).del) // a deleting receiver is sent the exclusion list first
 			if err != nil {
 				res.Inconcl = "tap: " + err.Error()
 				return res
